@@ -54,16 +54,29 @@ def scenario(task):
     Zc = e1.Z()
     bad = []
     smemo = {}
+    # pass 1: one-variable slices (everything but v at the base point, exact rationals): a dependency shows up here in
+    # milliseconds with a concrete witness.  pass 2: the fully symbolic query (independence needs it).
+    work = []
     for ti in range(ys.shape[0]):
         for b in range(nb):
             for k in range(d):
                 node = ys.sym[ti, b, k]
-                foreign = sorted(v for v in dag.support(node, smemo) if row_of(v) not in (None, b))
-                for v in foreign:
-                    r, model = Zc.equal(dag.diff(node, v), dag.ZERO)
-                    if r != 'unsat':
-                        bad.append((f'ys[{ti},{b},{k}] depends on {v}', r))
-                        break
+                sup = dag.support(node, smemo)
+                for v in sorted(u for u in sup if row_of(u) not in (None, b)):
+                    work.append((ti, b, k, node, v, sup))
+    for ti, b, k, node, v, sup in work:
+        # a generic rational point near the base point (the base point itself is degenerate: e.g. A = Ax - Ax^T = 0 there)
+        at = {u: dag.lift(Fraction(mk.env[u]).limit_denominator(1000) + Fraction(i + 1, 89)) for i, u in enumerate(sorted(sup)) if u != v}
+        r, model = Zc.equal(dag.diff(dag.substitute(node, at), v), dag.ZERO)
+        if r != 'unsat':
+            bad.append((f'ys[{ti},{b},{k}] depends on {v}', r))
+            break
+    if not bad:
+        for ti, b, k, node, v, sup in work:
+            r, model = Zc.equal(dag.diff(node, v), dag.ZERO)
+            if r != 'unsat':
+                bad.append((f'ys[{ti},{b},{k}] depends on {v}', r))
+                break
     # permutation: swap rows 0 and 1 of y0 and of the Brownian motion
     perm = [1, 0] + list(range(2, nb))
     y0p = y0.index_select(0, torch.tensor(perm))
@@ -71,8 +84,14 @@ def scenario(task):
     want = ys.sym[:, perm, :]
     simp = {}
     for x, y in zip(ysp.sym.reshape(-1), want.reshape(-1)):
+        if bad:
+            break       # already decided by a concrete dependency witness
         if x is not y and dag.ieee_simplify(x, simp) is not dag.ieee_simplify(y, simp):
-            r, _ = Zc.equal(x, y)
+            sup = dag.support(x, smemo) | dag.support(y, smemo)
+            at = {u: dag.lift(Fraction(mk.env[u]).limit_denominator(1000) + Fraction(i + 1, 89)) for i, u in enumerate(sorted(sup))}
+            r, _ = Zc.equal(dag.substitute(x, at), dag.substitute(y, at))      # ground instance first
+            if r == 'unsat':
+                r, _ = Zc.equal(x, y)
             bad.append(('row permutation does not permute the outputs' + ('' if r != 'unsat' else ' (equal as reals, different float operations)'), 'structure' if r == 'unsat' else r))
             break
     return dict(task=task, bad=bad[:5], queries=Zc.queries, solver_s=Zc.solver_s)
